@@ -627,17 +627,19 @@ def address_to_script_pubkey(s):
         h160 = decode_base58(s)
         return P2SHScriptPubKey(h160)
     elif s[:4] in ("bc1q", "tb1q") or s[:6] == "bcrt1q":
-        # regtest p2wpkh is len 44, p2wsh is len 64 (2 extra for "bcrt" vs "bc"/"tb")
-        if len(s) in (42, 44):
+        # a version 0 witness program is 20 bytes (p2wpkh) or 32 bytes (p2wsh)
+        witness_program = decode_bech32(s)[2]
+        if len(witness_program) == 20:
             # p2wpkh
-            return P2WPKHScriptPubKey(decode_bech32(s)[2])
-        elif len(s) in (62, 64):
+            return P2WPKHScriptPubKey(witness_program)
+        elif len(witness_program) == 32:
             # p2wsh
-            return P2WSHScriptPubKey(decode_bech32(s)[2])
+            return P2WSHScriptPubKey(witness_program)
     elif s[:4] in ("bc1p", "tb1p") or s[:6] == "bcrt1p":
-        if len(s) not in (62, 64):
+        witness_program = decode_bech32(s)[2]
+        if len(witness_program) != 32:
             raise RuntimeError(f"unknown type of address: {s}")
         # p2tr
-        return P2TRScriptPubKey(decode_bech32(s)[2])
+        return P2TRScriptPubKey(witness_program)
 
     raise RuntimeError(f"unknown type of address: {s}")
